@@ -5,7 +5,7 @@ EXTENDS Cors, Json, TLC
 VARIABLE cfg
 O1 == "https://o1.example"   O2 == "https://o2.example"
 OriginsC == {<<>>, <<"*">>, <<O1>>, <<O1, O2>>, <<"*", O1>>}
-AllowC   == {<<>>, <<"*">>, <<"Content-Type">>, <<"Content-Type", "X-A">>}
+AllowC   == {<<>>, <<"*">>, <<"Content-Type">>, <<"Content-Type", "X-A">>, <<"Content-Type", "X-CSRF-Token", "X-Client-Id", "content-length">>}
 ExposeC  == {<<>>, <<"E1", "E2">>}
 MaxAgeC  == {0, -1, 50, -2}
 CorsCfgs == {[on |-> TRUE, origins |-> o, allow |-> a, expose |-> e, maxage |-> m, cred |-> c] :
@@ -19,7 +19,7 @@ ReqsC == {Rq(m, p, o, rm, rh) : m \in {"GET", "HEAD", "POST", "OPTIONS", "PUT", 
                                 o \in {"", O1, O2, "https://evil.example", "HTTPS://O1.EXAMPLE"},
                                 rm \in {"", "POST", "DELETE", "post"},
                                 rh \in {"-", "", "Content-Type", "content-type", "X-Evil", "Content-Type , x-a", " X-A,content-TYPE ", "X-A,,Content-Type",
-                                       "Content", "ontent-Typ", "X-", "content-type,x-evil"}}
+                                       "Content", "ontent-Typ", "X-", "content-type,x-evil", "x-client-id", "X-CLIENT-ID, x-csrf-token"}}
 BaseOps == <<[op |-> "handle", pat |-> "/a", methods |-> <<"GET", "POST">>, mws |-> <<>>, chain |-> <<>>, res |-> FALSE],
              [op |-> "handle", pat |-> "/b", methods |-> <<"DELETE">>, mws |-> <<>>, chain |-> <<>>, res |-> FALSE]>>
 
@@ -36,7 +36,9 @@ RmO(p, ms) == [op |-> "remove", pat |-> p, methods |-> ms, mws |-> <<>>, chain |
 Pre(p, rm) == Rq("OPTIONS", p, O1, rm, "Content-Type")
 DynOps == BaseOps \o <<Pre("/a", "POST"), Pre("/a", "DELETE"), Hd("/a", <<"DELETE">>), Pre("/a", "DELETE"), Pre("/a", "POST"), Rq("DELETE", "/a", O1, "", "-"),
                         RmO("/a", <<"POST">>), Pre("/a", "POST"), Pre("/a", "DELETE"), Pre("/b", "DELETE"), Hd("/b", <<"PUT">>), Pre("/b", "PUT"),
-                        RmO("/b", <<>>), Pre("/b", "PUT"), Hd("/b", <<"GET">>), Pre("/b", "GET"), Pre("/b", "HEAD"), Pre("/b", "DELETE")>>
+                        RmO("/b", <<>>), Pre("/b", "PUT"), Hd("/b", <<"GET">>), Pre("/b", "GET"), Pre("/b", "HEAD"), Pre("/b", "DELETE"),
+                        Hd("/c", <<"GET", "POST">>), Pre("/c", "GET"), RmO("/c", <<"GET", "HEAD">>), Pre("/c", "GET"), Pre("/c", "POST"), Pre("/c", "HEAD"),
+                        RmO("/c", <<"OPTIONS", "POST">>), Pre("/c", "POST"), Rq("POST", "/c", O1, "", "-")>>
 DynCase == [fam |-> "router", battery |-> "none", ops |-> DynOps, reqs |-> {},
             cfg |-> [name |-> "r", trace |-> FALSE, lock |-> FALSE, icpt |-> <<>>, domain |-> "", cors |-> cfg]]
 Emit == PrintT("CASE " \o ToJson(CaseOf)) /\ PrintT("CASE " \o ToJson(DynCase))
